@@ -15,6 +15,7 @@ ASSUMPTIONS = ["CPython float repr is the shortest round-tripping decimal", "inf
                "values are built with the backend's own kg_asarray, as the reader builds them"]
 MIN_COUNTS = {"nontrivial": 300, "form_format_checked": 40, "roundtrips": 300, "channel_roundtrips": 600}
 CASE_TIMEOUT = 60
+MEM_LIMIT_GB = 6
 
 HOSTILE = ['"', ' ', '\n', '[', ']', ':', '"', 'a', '0', 'c', '{', '}', ';', '\t', "'", '\\', '-', 'e', '.']
 
